@@ -242,7 +242,10 @@ Definition finished_ok (rest : list logent) (o : tobs) : bool :=
     (* only a call whose body exited the goroutine does not come back *)
     match o_ret o with ONever => is_goexit bo | _ => true end &&
     (* nil only when the commit succeeded *)
-    (if ret_nil (o_ret o) then is_commit (ecall e) && outcome_eqb (eout e) OOk else true)
+    (if ret_nil (o_ret o) then is_commit (ecall e) && outcome_eqb (eout e) OOk else true) &&
+    (* the call itself panics only when the driver's end call panicked: a panic of the BODY - whatever
+       its value: a string, an error, a runtime.Error, nil - is reported as an error, it does not escape *)
+    (match o_ret o with OPanicked => outcome_eqb (eout e) OPanic | _ => true end)
   | _, _ => false
   end.
 
